@@ -812,16 +812,37 @@ func judge(sc *Scenario, obs *observation) (v verdict) {
 			}
 			cands := ceilingCandidates(r.Budget, f.w, r.MaxRate)
 			constructible := len(cands) > 0
+			short := false // the attached inputs cannot even cover the ceiling fee
 			for _, c := range cands {
 				feeCeil := c * f.w / 1000
 				if in-reqSum < feeCeil {
-					constructible = false
+					constructible, short = false, true
 					continue
 				}
 				if ch := in - reqSum - feeCeil; ch < dustChange {
 					if reqSum == 0 || feeCeil+ch > r.Budget {
 						constructible = false
 					}
+				}
+			}
+			underfunded := int64(0)
+			if !constructible && short {
+				// Judge from the WHOLE wallet, not from what the node chose to
+				// attach: if the unattached wallet UTXOs would cover the full
+				// budget plus a non-dust change, a tx at the ceiling IS
+				// constructible and the node simply under-funded the set.
+				var unattached int64
+				spent := map[wire.OutPoint]bool{}
+				for _, ti := range t.Tx.TxIn {
+					spent[ti.PreviousOutPoint] = true
+				}
+				for _, u := range w.utxos {
+					if !spent[u.OutPoint] {
+						unattached += int64(u.Value)
+					}
+				}
+				if unattached > 0 && in-reqSum+unattached >= r.Budget+dustChange {
+					constructible, underfunded = true, unattached
 				}
 			}
 			if !constructible {
@@ -838,11 +859,15 @@ func judge(sc *Scenario, obs *observation) (v verdict) {
 				}
 			}
 			if !ok {
-				if x := r.Budget * 1000 / f.w; cause == "none" && r.Budget*1000%f.w != 0 && x+1 <= r.MaxRate && (x+1)*f.w/1000 > r.Budget {
+				if x := r.Budget * 1000 / f.w; cause == "none" && underfunded == 0 && r.Budget*1000%f.w != 0 && x+1 <= r.MaxRate && (x+1)*f.w/1000 > r.Budget {
 					// budget/size rounded UP would already cost more than the budget
 					cause = "budget-rate-roundup-exceeds-budget"
 				}
-				add("ceiling-not-reached", cause, "blocks up to height %d (deadline %d) were processed, yet the last tx offered for the input set (height %d) pays fee %d on weight %d = rates %d..%d (reported %d), not the ceiling %v = min(budget %d/size, max %d)", obs.lastH, r.Deadline, t.Height, f.fee, f.w, f.lo, f.hi, f.exact, cands, r.Budget, r.MaxRate)
+				extra := ""
+				if underfunded > 0 {
+					extra = fmt.Sprintf("; the attached inputs can pay at most %d in fees although %d sat of wallet UTXOs were left unattached", in-reqSum, underfunded)
+				}
+				add("ceiling-not-reached", cause, "blocks up to height %d (deadline %d) were processed, yet the last tx offered for the input set (height %d) pays fee %d on weight %d = rates %d..%d (reported %d), not the ceiling %v = min(budget %d/size, max %d)%s", obs.lastH, r.Deadline, t.Height, f.fee, f.w, f.lo, f.hi, f.exact, cands, r.Budget, r.MaxRate, extra)
 			} else {
 				v.classes = append(v.classes, "reached-ceiling-by-deadline-1")
 			}
@@ -924,14 +949,19 @@ func expectSweep(sc *Scenario, w *world) (bool, string) {
 		return false, ""
 	}
 	imm := false
+	hasReq := false
 	var sumV, sumB int64
 	for _, s := range sc.Inputs {
-		if s.ReqOut > 0 || s.Start > 0 {
+		if s.Start > 0 {
 			return false, ""
 		}
+		hasReq = hasReq || s.ReqOut > 0
 		imm = imm || s.Immediate
 		sumV += s.Value
 		sumB += s.Budget
+	}
+	if hasReq {
+		return expectSweepRequired(sc, w, imm, sumB)
 	}
 	if len(sc.Blocks) == 0 && !imm {
 		return false, ""
@@ -963,6 +993,64 @@ func expectSweep(sc *Scenario, w *world) (bool, string) {
 		return false, ""
 	}
 	return true, fmt.Sprintf("weight %d, ceiling %d sat/kw, estimator %d", W, ceil, base)
+}
+
+// expectSweepRequired: sets containing inputs with a required output, whose
+// budget has to be borrowed from ordinary inputs and wallet UTXOs. A sweep must
+// be published if the economics are comfortable and NO subset of wallet UTXOs
+// lands in the narrow band where the borrowed value covers the budget but
+// leaves a below-dust change (there the outcome legitimately depends on which
+// UTXOs are picked); outside the band every top-up that covers the budget also
+// yields a constructible tx at every rate up to the ceiling.
+func expectSweepRequired(sc *Scenario, w *world, imm bool, sumB int64) (bool, string) {
+	if imm || len(sc.Blocks) == 0 || len(sc.Wallet) > 6 {
+		return false, ""
+	}
+	var lend, needed int64
+	for _, s := range sc.Inputs {
+		if s.ReqOut > 0 {
+			if s.ReqOut < dustFor(p2wsh(0)) || s.ReqOut != s.Value {
+				return false, ""
+			}
+			needed += s.Budget
+		} else {
+			lend += s.Value - s.Budget
+		}
+	}
+	Wmax := syntheticWeight(sc, w.change) + int64(len(sc.Wallet))*(4*41+109)
+	maxRate := sc.MaxFeeRateVB * 250
+	ceil := sumB * 1000 / Wmax
+	if maxRate < ceil {
+		ceil = maxRate
+	}
+	for _, s := range sc.Inputs {
+		if s.Budget < sc.EstFee*Wmax/1000+1 {
+			return false, ""
+		}
+	}
+	if ceil-sc.EstFee < int64(sc.Delta)+1 {
+		return false, ""
+	}
+	band := dustFor(w.change) + Wmax/1000 + 2
+	var total int64
+	for _, u := range sc.Wallet {
+		total += u
+	}
+	if lend+total < needed+band {
+		return false, ""
+	}
+	for m := 0; m < 1<<uint(len(sc.Wallet)); m++ {
+		tot := lend
+		for i, u := range sc.Wallet {
+			if m>>uint(i)&1 == 1 {
+				tot += u
+			}
+		}
+		if tot >= needed && tot < needed+band {
+			return false, ""
+		}
+	}
+	return true, fmt.Sprintf("required-output set: budgets to borrow %d, lendable %d, wallet %d, max weight %d, ceiling >= %d sat/kw", needed, lend, total, Wmax, ceil)
 }
 
 // ---------------------------------------------------------------------------
@@ -1275,8 +1363,88 @@ func spaces(thorough bool) []space {
 			}
 		}
 	}})
+	// ---- F: SEVERAL required-output inputs sharing a deadline (clustered into
+	// one set), budgets equal / ascending / descending, topped up from wallet
+	// UTXO multisets around every partial sum of the budgets, alone and together
+	// with ordinary inputs that lend (or lack) budget; deadlines long enough
+	// for the ramp to outgrow a partially funded set ----
+	sp = append(sp, space{"F:multi-required-output+wallet", func(emit func(Scenario)) {
+		req := func(b int64) InSpec { return InSpec{Value: 20_000, Budget: b, ReqOut: 20_000} }
+		type setT struct {
+			ins []InSpec
+		}
+		var sets []setT
+		for _, bs := range [][]int64{{3000, 3000}, {1000, 5000}, {5000, 1000}, {3000, 3000, 3000}, {1000, 3000, 5000}, {5000, 3000, 1000}} {
+			var ins []InSpec
+			for _, b := range bs {
+				ins = append(ins, req(b))
+			}
+			sets = append(sets, setT{ins})
+		}
+		// mixed: two required-output inputs + one ordinary input that lends a
+		// lot / a little / owes budget itself
+		for _, bs := range [][]int64{{3000, 3000}, {5000, 1000}} {
+			for _, pl := range []InSpec{{Value: 10_000, Budget: 3_000}, {Value: 600, Budget: 500}, {Value: 2_000, Budget: 2_500}} {
+				sets = append(sets, setT{[]InSpec{req(bs[0]), pl, req(bs[1])}})
+			}
+		}
+		ds := []int32{2, 3, 4}
+		if thorough {
+			ds = []int32{1, 2, 3, 4, 5, 6}
+		}
+		for _, set := range sets {
+			var needed, lend int64
+			var rb []int64
+			for _, in := range set.ins {
+				if in.ReqOut > 0 {
+					needed += in.Budget
+					rb = append(rb, in.Budget)
+				} else {
+					lend += in.Value - in.Budget
+				}
+			}
+			sort.Slice(rb, func(i, j int) bool { return rb[i] < rb[j] })
+			// partial sums of the budgets still to be borrowed
+			targets := dedup64([]int64{rb[0] - lend, rb[len(rb)-1] - lend, rb[0] + rb[1] - lend, needed - rb[0] - lend, needed - lend}, 1)
+			wallets := [][]int64{nil, {1_000_000}}
+			for _, T := range targets {
+				for d := int64(-1); d <= 1; d++ {
+					rest := needed - lend - T + 2_000
+					if rest < 1_000 {
+						rest = 1_000
+					}
+					wallets = append(wallets,
+						[]int64{T + d},                 // covers exactly this partial sum, nothing more
+						[]int64{T + d, rest},           // ... and a second UTXO completes the total
+						[]int64{T + d, 1_000_000},      // small one + one large
+						[]int64{T + d, 700, 1_000_000}, // small ones + one large
+					)
+				}
+			}
+			tot := needed - lend
+			for d := int64(-1); d <= 1; d++ {
+				wallets = append(wallets, []int64{tot/2 + d, tot/2 + d}, []int64{tot/3 + d, tot/3 + d, tot/3 + d + 2}, []int64{tot/3 + d, tot/3 + d, tot/3 + d, 50_000})
+			}
+			for _, wl := range wallets {
+				ok := true
+				for _, u := range wl {
+					ok = ok && u > 0
+				}
+				if !ok {
+					continue
+				}
+				for _, mx := range maxes {
+					for _, d := range ds {
+						for _, bl := range allSubsets(d + 1) {
+							emit(Scenario{Kind: "pipe", Inputs: append([]InSpec{}, set.ins...), Wallet: wl, MaxFeeRateVB: mx, Relay: relay, EstFee: relay, Delta: d, Blocks: bl})
+						}
+					}
+				}
+			}
+		}
+	}})
 	// cheap, targeted spaces first so that a time cap cuts the big lattice last
-	order := map[string]int{"D": 0, "E": 1, "W": 2, "B": 3, "C": 4, "A2": 5, "A": 6}
+	order := map[string]int{"D": 0, "E": 1, "F": 2, "W": 3, "B": 4, "C": 5, "A2": 6, "A": 7}
 	sort.SliceStable(sp, func(i, j int) bool {
 		return order[strings.SplitN(sp[i].name, ":", 2)[0]] < order[strings.SplitN(sp[j].name, ":", 2)[0]]
 	})
